@@ -27,6 +27,7 @@ type Obligation struct {
 	Modules map[string]bool
 	Info    string // human-readable description (source expr)
 	Excuse  Term   // optional: known-finding excuse (set by matcher)
+	vc        *VC  // the verification context that generated it (replay)
 	OnlyProps bool // Props come from the clause label: the obligation belongs to exactly these properties
 	// results
 	Status  string // proved, failed, unknown, error
@@ -44,6 +45,7 @@ func fail(format string, a ...interface{}) { panic(unsupported{fmt.Sprintf(forma
 
 // VC: verification of one function under contract.
 type VC struct {
+	rootParams []Val // values of the function's parameters at entry (replay)
 	fvCells map[string]string // B1: term of a captured-variable cell -> variable name
 	w        *World
 	cs       *Contracts
@@ -805,7 +807,7 @@ func (st *State) oblige(kind, label string, goal Term, info string) {
 	if goal.S == "true" {
 		// still recorded: trivially discharged
 	}
-	o := &Obligation{Name: name, Kind: kind, Fn: vc.key, lines: st.lines, Goal: goal, Info: info, Mode: vc.mode}
+	o := &Obligation{Name: name, Kind: kind, Fn: vc.key, lines: st.lines, Goal: goal, Info: info, Mode: vc.mode, vc: vc}
 	if vc.fc != nil {
 		o.Props = vc.fc.Props
 	}
